@@ -72,8 +72,83 @@ def bounded(tier, seed):
                       "find_pairs|find_stackings|detect_saenger|merge_and_clean")]
 
 
+def files_check(case):
+    """observe_at annotator.write_json / write_csv: the written files hold the annotation's lists - same interactions, same order,
+    nothing repeated, no residue with itself"""
+    import csv, json, os, tempfile
+    from gen import structures as G
+    from rnapolis import annotator
+    s = G.load(case)
+    s2d, _ = annotator.extract_secondary_structure(s, None, False, False)
+    bi = s2d.baseInteractions
+    with tempfile.TemporaryDirectory(prefix="c11-files-") as d:
+        annotator.write_json(os.path.join(d, "o.json"), s2d)
+        annotator.write_csv(os.path.join(d, "o.csv"), s2d)
+        j = json.load(open(os.path.join(d, "o.json")))["baseInteractions"]
+        rows = list(csv.reader(open(os.path.join(d, "o.csv"))))
+
+    def nm(r):
+        return (r.label.chain if r.label else None, r.label.number if r.label else None, r.auth.chain if r.auth else None,
+                r.auth.number if r.auth else None, r.auth.icode if r.auth else None)
+
+    def jn(r):
+        la, au = r["label"], r["auth"]
+        return (la["chain"] if la else None, la["number"] if la else None, au["chain"] if au else None, au["number"] if au else None, au["icode"] if au else None)
+    errs = []
+    mem = {"basePairs": [(nm(x.nt1), nm(x.nt2), x.lw.value, x.saenger.value if x.saenger else None) for x in bi.basePairs],
+           "stackings": [(nm(x.nt1), nm(x.nt2), x.topology.value if x.topology else None) for x in bi.stackings],
+           "basePhosphateInteractions": [(nm(x.nt1), nm(x.nt2), x.bph.value) for x in bi.basePhosphateInteractions],
+           "baseRiboseInteractions": [(nm(x.nt1), nm(x.nt2), x.br.value) for x in bi.baseRiboseInteractions]}
+    got = {"basePairs": [(jn(x["nt1"]), jn(x["nt2"]), x["lw"], x["saenger"]) for x in j["basePairs"]],
+           "stackings": [(jn(x["nt1"]), jn(x["nt2"]), x["topology"]) for x in j["stackings"]],
+           "basePhosphateInteractions": [(jn(x["nt1"]), jn(x["nt2"]), x["bph"]) for x in j["basePhosphateInteractions"]],
+           "baseRiboseInteractions": [(jn(x["nt1"]), jn(x["nt2"]), x["br"]) for x in j["baseRiboseInteractions"]]}
+    for k in mem:
+        if got[k] != mem[k]:
+            errs.append(f"JSON list {k} differs from the annotation ({len(got[k])} vs {len(mem[k])} entries)")
+        if len(set(got[k])) != len(got[k]):
+            errs.append(f"JSON list {k} repeats an interaction")
+    want_rows = ([[x.nt1.full_name, x.nt2.full_name, "base pair", x.lw.value, x.saenger.value if x.saenger else ""] for x in bi.basePairs]
+                 + [[x.nt1.full_name, x.nt2.full_name, "stacking", x.topology.value if x.topology else "", ""] for x in bi.stackings]
+                 + [[x.nt1.full_name, x.nt2.full_name, "base-phosphate interaction", x.bph.value, ""] for x in bi.basePhosphateInteractions]
+                 + [[x.nt1.full_name, x.nt2.full_name, "base-ribose interaction", x.br.value, ""] for x in bi.baseRiboseInteractions]
+                 + [[x.nt1.full_name, x.nt2.full_name, "other interaction", "", ""] for x in bi.otherInteractions])
+    body = rows[1:]
+    if rows[:1] != [["nt1", "nt2", "type", "classification-1", "classification-2"]] or body != want_rows:
+        errs.append(f"CSV: header / rows differ from the annotation's lists in order ({len(body)} rows for {len(want_rows)} interactions)")
+    if len({tuple(r) for r in body}) != len(body):
+        errs.append("CSV repeats a row")
+    if any(r[0] == r[1] for r in body):
+        errs.append("CSV row joins a residue with itself")
+    return errs
+
+
+def _bounded_files(tier):
+    import os
+    from gen import structures as G
+    from props._util import run_cases
+    files = [p for p in G.corpus(tier) if os.path.getsize(p) < (300000 if tier == "quick" else 3000000)]
+    return run_cases("written-files", files, files_check, lambda c: True,
+                     "corpus structures: the JSON and CSV files written by annotator.write_json / write_csv hold the annotation's four lists entry for entry in the same order, "
+                     "no repeated entry, no residue with itself", f"{len(files)} structures", sig=os.path.basename, relates="write_json|write_csv")
+
+
+_bounded_lists = bounded
+
+
+def bounded(tier, seed):
+    return _bounded_lists(tier, seed) + [_bounded_files(tier)]
+
+
 from props._util import make_replay
-replay = make_replay(bounded)
+_replay_lists = make_replay(_bounded_lists)
+
+
+def replay(inp):
+    if inp.get("check") == "written-files":
+        errs = files_check(inp["case"])
+        return {"fails": bool(errs), "errors": errs[:3]}
+    return _replay_lists(inp)
 
 
 def deductive_extra(tier, seed):
